@@ -25,6 +25,32 @@ POOL_LIT = ['0', '1', '-1', '2147483648', '0x7fffffffffffffff', '184467440737095
             '4294967296', '99999999999999999999999', '\\', '@', '`', '$', '\x7f']
 
 SNIPPETS = r'''
+long y = (-9223372036854775807L-1)%-1;
+long y = (-9223372036854775807L-1)%-1L + (-9223372036854775807L-1)/-1L;
+enum { E = (-9223372036854775807L-1) % -1 };
+int y = (-2147483647-1) % -1; int z = (-2147483647-1) / -1;
+unsigned long y = 18446744073709551615u % -1; unsigned long z = 18446744073709551615u / -1;
+int a[1 + ((-9223372036854775807L-1) % -1)];
+int f(int c) { switch (c) { case (-9223372036854775807L-1) % -1: return 1; } return 0; }
+char s[] = "ab" L"cd";
+char s[3] = "ab" L"cd" "ef";
+int x = "a" u"b";
+int *p = "ab" U"cd";
+void f(void) { "ab" L"cd" = 1; }
+void f(void) { int x = sizeof("ab" L"cd") / 0; }
+unsigned short w[] = "x" u"y" "z"; char c[] = u8"a" "b" L"c";
+int f(void) { return "ab" L"cd" + 1.5; }
+struct T3 { char a[3]; } x3, y3; void f(void) { __builtin_atomic_exchange(&x3, y3); }
+struct T5 { char a[5]; } x5, y5; void f(void) { __builtin_atomic_exchange(&x5, y5); }
+struct T6 { short a[3]; } x6, y6; void f(void) { __builtin_atomic_exchange(&x6, y6); }
+struct T7 { char a[7]; } x7, y7; void f(void) { __builtin_atomic_exchange(&x7, y7); }
+struct T16 { long a[2]; } x16, y16; void f(void) { __builtin_atomic_exchange(&x16, y16); }
+struct T3 { char a[3]; } x3, y3, z3; int f(void) { return __builtin_compare_and_swap(&x3, &y3, z3); }
+struct T12 { int a[3]; } x12, y12, z12; int f(void) { return __builtin_compare_and_swap(&x12, &y12, z12); }
+_Atomic struct { char a[3]; } at3; void f(void) { at3 = at3; }
+_Atomic struct { char a[3]; } at3; void f(void) { at3.a[0] += 1; }
+_Atomic long double ald; void f(void) { ald += 1; ald++; }
+_Atomic struct { long a, b; } at16; void f(void) { at16 = at16; }
 int x = 1/0;
 int x = 1%0;
 long y = (-9223372036854775807L-1)/-1;
